@@ -136,21 +136,37 @@ pub fn fresh_decode(kind: Kind, k: usize, r: usize, b: usize, adds: &[Add]) -> R
 // C12 probing
 
 pub fn probe_indexes(count: usize, seed: u64) -> Vec<usize> {
-    let mut v = vec![
+    probe_indexes_for(count, 1, seed)
+}
+
+/// `blocks` = 64-byte blocks per shard: indexes whose product with it (or with small multiples) wraps
+/// around 2^64 into the valid range are probed as well.
+pub fn probe_indexes_for(count: usize, blocks: usize, seed: u64) -> Vec<usize> {
+    let mut wrap = Vec::new();
+    for l in [blocks.max(1), 64 * blocks.max(1), 2, 64] {
+        let q = (usize::MAX / l).wrapping_add(1); // smallest i with i * l >= 2^64 (0 for l = 1)
+        wrap.push(q);
+        wrap.push(q.wrapping_add(count.saturating_sub(1)));
+        wrap.push(q.wrapping_add(1));
+    }
+    let mut v = wrap;
+    v.extend([1usize << 63, 1 << 62, (1 << 63) + 1, 1 << 48]);
+    let count = count.min(usize::MAX - 2);
+    v.extend(vec![
         0,
         count.saturating_sub(1),
         count,
-        count + 1,
+        count.saturating_add(1),
         1 << 16,
         1 << 32,
         usize::MAX - 1,
         usize::MAX,
         usize::MAX - count,
-        usize::MAX - count + 1,
-    ];
+        (usize::MAX - count).saturating_add(1),
+    ]);
     let mut p = Prng::new(seed);
     for _ in 0..4 {
-        v.push(p.below(count as u64 + 2) as usize);
+        v.push(p.below((count as u64).saturating_add(2)) as usize);
     }
     v
 }
@@ -178,7 +194,7 @@ pub fn probe_encoder_result(res: &EncoderResult, r: usize, b: usize, seed: u64) 
             return Err(format!("recovery_iter item {j} has {} bytes, expected {b}", s.len()));
         }
     }
-    for i in probe_indexes(r, seed) {
+    for i in probe_indexes_for(r, b.div_ceil(64), seed) {
         match res.recovery(i) {
             Some(s) if i < r => {
                 if s != &all[i][..] {
@@ -224,7 +240,7 @@ pub fn probe_decoder_result(res: &DecoderResult, k: usize, b: usize, given: &[bo
         }
     }
     let map: BTreeMap<usize, Vec<u8>> = seq.into_iter().collect();
-    let mut idx = probe_indexes(k, seed);
+    let mut idx = probe_indexes_for(k, b.div_ceil(64), seed);
     if k <= 64 {
         idx.extend(0..k);
     }
